@@ -187,7 +187,7 @@ class _BoolCanon(ast.NodeTransformer):
 def _lift_conditionals(e, limit=6):
     """Canonical decision tree of a pure expression: conditional sub-expressions are lifted to the top and the tests
     are split in text order, so ``f(a if c else b)`` and ``f(a) if c else f(b)`` get one form."""
-    from .symexec import bool_atoms, bool_eval
+    from .symexec import _is_none_key, bool_atoms, bool_eval
 
     scoped = (ast.ListComp, ast.SetComp, ast.DictComp, ast.GeneratorExp, ast.Lambda)
 
@@ -212,7 +212,7 @@ def _lift_conditionals(e, limit=6):
             n = ast.Compare(left=t.left, ops=[pos], comparators=t.comparators)
             nodes.setdefault(U(n), n)
         elif isinstance(t, ast.Compare) and len(t.ops) == 1 and isinstance(t.comparators[0], ast.Constant) and t.comparators[0].value is None and isinstance(t.ops[0], ast.Is):
-            nodes.setdefault(f"{U(t.left)} is None", t)
+            nodes.setdefault(_is_none_key(t.left), t)
         else:
             nodes.setdefault(U(t), t)
 
